@@ -341,6 +341,8 @@ func (c *ctxt) o2oWriterMutations(a, b, x ident) {
 			{"a-replaced", [][]byte{X, B}, owner, []ident{b, x}},
 			{"owner-of-stranger", [][]byte{lo, hi}, X, []ident{a, b}},
 			{"owner-empty", [][]byte{lo, hi}, nil, []ident{a, b}},
+			{"writer-garbage", [][]byte{A, {1, 2, 3}}, owner, []ident{a}},
+			{"owner-garbage", [][]byte{lo, hi}, []byte{9, 9}, []ident{a, b}},
 		}
 		for _, v := range vs {
 			info := &aclrecordproto.AclOneToOneInfo{Owner: v.owner, Writers: v.writers}
@@ -363,9 +365,16 @@ func (c *ctxt) o2oWriterMutations(a, b, x ident) {
 				}
 				r.Count(fmt.Sprintf("o2o.writers.%s.acl-state-rejected=%v", v.name, kerr != nil))
 			}
+			// correspondence with the Lean model of setOneToOneAcl: both parties and the outsider
+			for _, acc := range []ident{a, b, x} {
+				c.o2oState(tag, acc, q, info)
+			}
 		}
 		// sanity: the unmodified re-issue is usable by both parties
 		ok := reissue(s, reissueOpts{})
+		for _, acc := range []ident{a, b, x} {
+			c.o2oState(kind+" writers:genuine", acc, ok, &aclrecordproto.AclOneToOneInfo{Owner: owner, Writers: [][]byte{lo, hi}})
+		}
 		for _, acc := range []ident{a, b} {
 			if rk, _, kerr := o2oKeys(acc.priv, ok); kerr != nil || len(rk) == 0 {
 				r.Violate(prop, "", "space.reissue.selfcheck", fmt.Sprintf("harness: a consistently re-issued genuine 1-1 root is not usable by %s: %v", acc.label, kerr), []string{kind})
